@@ -1059,8 +1059,14 @@ def get_output_filenames(
         ]
     )
 
+    # A sequential observation stores the bare filenames (already relative to
+    # 'output_dir'), the other modes store the full paths
     filenames: "pd.Series" = df_filenames["filename"].apply(
-        lambda filename: Path(filename).relative_to(output_dir)
+        lambda filename: (
+            Path(filename).relative_to(output_dir)
+            if Path(filename).is_absolute()
+            else Path(filename)
+        )
     )
 
     del df_filenames["filename"]
